@@ -185,6 +185,13 @@ func genBackoff(r *gen.Rand) bdesc {
 				mx = mn
 			}
 		}
+		if r.Intn(4) == 0 {
+			// boundary pairs of the range first: widest range, adjacent values, both ends of int64
+			pairs := [][2]int64{{0, math.MaxInt64}, {0, math.MaxInt64 - 1}, {1, math.MaxInt64}, {math.MaxInt64 - 1, math.MaxInt64},
+				{math.MaxInt64, math.MaxInt64}, {0, 0}, {0, 1}, {0, 2}, {1, 2}, {5, 6}, {0, 1 << 32}, {1 << 62, math.MaxInt64}, {0, 1 << 62}}
+			pr := pairs[r.Intn(len(pairs))]
+			mn, mx = pr[0], pr[1]
+		}
 		d.toks = fmt.Sprintf("R %d %d", mn, mx)
 		d.b, err = retry.NewRandomBackoff(mn, mx)
 	}
@@ -434,7 +441,16 @@ func genSpec(r *gen.Rand, n int) {
 			if err != nil {
 				return "err"
 			}
-			return "ok " + describe(b)
+			first := describe(b)
+			// the builder is reusable: building again must give the same backoff (layers applied once, in order)
+			b2, err2 := bld.Build()
+			if err2 != nil {
+				return "rebuild-err after ok " + first
+			}
+			if second := describe(b2); second != first {
+				return "rebuild-differs " + first + " | " + second
+			}
+			return "ok " + first
 		}()
 		stats["spec:"+strings.SplitN(res, " ", 2)[0]]++
 		emit("spec", "x"+hex.EncodeToString([]byte(s))+"\t"+pf+"\t"+strings.Join(lt, " "), res)
